@@ -179,13 +179,15 @@ func (t DeployTransition) do(env *Environment) (err error) {
 
 		return*/
 
-	notifyStatus := make(chan task.Status)
+	// The adapter notifies with a non-blocking send: one slot of buffer turns a notification that arrives while
+	// this goroutine is busy into a pending wake-up instead of dropping it.
+	notifyStatus := make(chan task.Status, 1)
 	subscriptionId := uuid.NewUUID().String()
 	env.wfAdapter.SubscribeToStatusChange(subscriptionId, notifyStatus)
 	defer env.wfAdapter.UnsubscribeFromStatusChange(subscriptionId)
 
 	// listen to workflow State changes
-	notifyState := make(chan sm.State)
+	notifyState := make(chan sm.State, 1)
 	env.wfAdapter.SubscribeToStateChange(subscriptionId, notifyState)
 	defer env.wfAdapter.UnsubscribeFromStateChange(subscriptionId)
 
@@ -225,6 +227,10 @@ func (t DeployTransition) do(env *Environment) (err error) {
 		for {
 			select {
 			case wfStatus = <-notifyStatus:
+				// a notification may stand for later ones that found the slot taken: also look at the current status
+				if wfStatus != task.ACTIVE && wfStatus != task.UNDEPLOYABLE {
+					wfStatus = wf.GetStatus()
+				}
 				log.WithField("status", wfStatus.String()).
 					WithField("partition", env.Id().String()).
 					Debug("workflow status change")
@@ -262,6 +268,10 @@ func (t DeployTransition) do(env *Environment) (err error) {
 
 			case <-time.After(deploymentTimeout):
 				wfStatus = wf.GetStatus()
+				if wfStatus == task.ACTIVE {
+					// everything became active in time, we only missed being told
+					break WORKFLOW_ACTIVE_LOOP
+				}
 				inactiveTaskRoles := make([]string, 0)
 				undeployableTaskRoles := make([]string, 0)
 				workflow.LeafWalk(wf, func(role workflow.Role) {
